@@ -241,3 +241,8 @@ Proof.
   - intros cls Hc. apply Hs. eapply in_firstn_sub. exact Hc.
 Qed.
 
+
+(* an instance of another data type is rejected *)
+Theorem wrong_type_rejected : forall want actual pol m votes,
+  kind_eqb want actual = false -> convert_checked want actual pol m votes = None.
+Proof. intros want actual pol m votes H. unfold convert_checked. rewrite H. reflexivity. Qed.
